@@ -76,6 +76,87 @@ func (k *checker) instanceTables() (tables []nodeTable, ok bool) {
 	return tables, true
 }
 
+// instRoles resolves the unexported fields of graph.Instance the rules talk about by role
+// (type), never by name: the id table (map keyed by nodes.Node), the producer table (map
+// whose elements are node outputs) and the metadata store (*sync.NestedSyncMap). Each must
+// be unique; otherwise the check fails hard.
+type instRoles struct{ ids, producers, metadata string }
+
+func (k *checker) instRoles() (instRoles, bool) {
+	var r instRoles
+	tables, ok := k.instanceTables()
+	if !ok {
+		return r, false
+	}
+	n := map[string]int{}
+	for _, t := range tables {
+		n[t.kind]++
+		switch t.kind {
+		case "node-key":
+			r.ids = t.name
+		case "output-elem":
+			r.producers = t.name
+		}
+	}
+	if n["node-key"] != 1 || n["output-elem"] != 1 {
+		k.c.R.Failf("anchor: id table / producer table of graph.Instance cannot be resolved uniquely by type (%d map(s) keyed by nodes.Node, %d map(s) of node outputs)", n["node-key"], n["output-elem"])
+		return r, false
+	}
+	gp := k.c.P.Pkg("generator/graph")
+	itn, _ := gp.Types.Scope().Lookup("Instance").(*types.TypeName)
+	st, _ := itn.Type().Underlying().(*types.Struct)
+	nm := 0
+	for i := 0; st != nil && i < st.NumFields(); i++ {
+		if ssau.IsNamed(st.Field(i).Type(), "github.com/EliCDavis/polyform/generator/sync", "NestedSyncMap") {
+			r.metadata = st.Field(i).Name()
+			nm++
+		}
+	}
+	if nm != 1 {
+		k.c.R.Failf("anchor: the metadata store of graph.Instance (*sync.NestedSyncMap field) cannot be resolved uniquely (%d candidates)", nm)
+		return r, false
+	}
+	return r, true
+}
+
+// tableLabel: stable construct label of a table role (independent of the field's name).
+func tableLabel(kind string) string {
+	switch kind {
+	case "node-key":
+		return "nodeIDs"
+	case "output-elem":
+		return "producers"
+	}
+	return kind
+}
+
+// nodeEncoder resolves the unexported per-node encoder by role: the static callee of the
+// exported EncodeToAppSchema that returns a schema.AppNodeInstance.
+func (k *checker) nodeEncoder() *ssa.Function {
+	enc := k.fn("generator/graph", "Instance.EncodeToAppSchema")
+	if enc == nil {
+		return nil
+	}
+	cands := map[*ssa.Function]bool{}
+	ssau.AllInstrs(enc, func(in ssa.Instruction) {
+		c, ok := in.(*ssa.Call)
+		if !ok || c.Common().IsInvoke() || !isNamedType(c.Type(), schemaPath, "AppNodeInstance") {
+			return
+		}
+		if g := c.Common().StaticCallee(); g != nil && g.Blocks != nil {
+			cands[g] = true
+		}
+	})
+	if len(cands) != 1 {
+		k.c.R.Failf("anchor: the per-node encoder (callee of EncodeToAppSchema returning schema.AppNodeInstance) cannot be resolved uniquely (%d candidates)", len(cands))
+		return nil
+	}
+	for g := range cands {
+		return g
+	}
+	return nil
+}
+
 func (k *checker) persist7() {
 	tables, ok := k.instanceTables()
 	if !ok {
@@ -129,7 +210,7 @@ func (k *checker) persist7Delete(fn *ssa.Function, name string, tables []nodeTab
 	}
 	for _, t := range tables {
 		tp := recv + "." + t.name
-		construct := name + "#" + t.name
+		construct := name + "#" + tableLabel(t.kind)
 		ds := dels[tp]
 		if len(ds) == 0 {
 			rep.violate("PERSIST-7", construct, fn.Pos(), "DeleteNode never removes the node's entries from "+t.name+": the deleted node stays referenced and the next save writes a dangling "+t.name+" entry")
